@@ -511,11 +511,9 @@ theorem matchTest_eq_testOK (w : WF m a) (ax : Axis) (t : Test) (i : Nat) :
     | name u l => cases ax <;> simp [matchTest, h0, principalKind]
     | nsAny u => cases ax <;> simp [matchTest, h0, principalKind]
 
-theorem evalStep_eq (w : WF m a) {n : Nat} (hn : n < a.length) (ax : Axis) (t : Test) (ab : Bool)
-    (hs : stepSafe m a ax ab n = true) : evalStep m a ax t ab n = stepSet m a ax t n := by
-  unfold stepSafe at hs
-  simp only [Bool.and_eq_true] at hs
-  obtain ⟨⟨hb, hc⟩, hi⟩ := hs
+theorem evalStep_eq_old (w : WF m a) {n : Nat} (hn : n < a.length) (ax : Axis) (t : Test) (ab : Bool)
+    (hb : okF01b a ax n = true) (hc : okF01c a ax n = true) (hi : okF01i m ax ab n = true) :
+    evalStep m a ax t ab n = stepSet m a ax t n := by
   have hi' : explicitChildAtDummy m ax ab n = false := by simpa [okF01i] using hi
   unfold evalStep stepSet
   rw [hi', axis_eq w hn ax (by simp [axisOK, hb, hc])]
@@ -523,6 +521,141 @@ theorem evalStep_eq (w : WF m a) {n : Nat} (hn : n < a.length) (ax : Axis) (t : 
   apply List.filter_congr
   intro i _
   rw [matchTest_eq_testOK w, Bool.and_comm]
+
+/-- the specified `following::t` set of an attribute / namespace node -/
+theorem stepSet_following_AN (w : WF m a) {n : Nat} (hn : n < a.length) (han : isAN a n = true) (t : Test) :
+    stepSet m a .following t n =
+      (allNodes a).filter fun i => decide (n < i) && !isAN a i && matchTest m a .elem t i := by
+  unfold stepSet
+  apply List.filter_congr
+  intro i hi
+  have hi' : i < a.length := List.mem_range.1 hi
+  have hleaf := w.leaf n hn (isED_false_of_AN han)
+  have hanc : isAnc a n i = false := by
+    cases h : isAnc a n i with
+    | false => rfl
+    | true => have := (isAnc_iff w hi').1 h; omega
+  have hvn : isDummyDoc m n = false := by
+    cases hv : isDummyDoc m n with
+    | false => rfl
+    | true =>
+      obtain ⟨_, rfl, h0, _⟩ := w.v_is_doc hv
+      rw [isAN_false_of_doc h0] at han; cases han
+  rw [← matchTest_eq_testOK w .following t i]
+  simp only [onAxis, isV_eq, isAttrOrNs_eq, hvn, hanc, Bool.not_false, Bool.true_and, Bool.and_true, principal]
+  by_cases hlt : n < i
+  · have hvi : isDummyDoc m i = false := not_v_of_pos (by omega)
+    simp [hlt, hvi]
+  · simp [hlt]
+
+theorem stepSet_attribute_attr (w : WF m a) {n : Nat} (hn : n < a.length) (hk : kd a n = .attr) (t : Test) :
+    stepSet m a .attribute t n = [] := by
+  unfold stepSet
+  rw [List.filter_eq_nil_iff]
+  intro i hi
+  have hi' : i < a.length := List.mem_range.1 hi
+  have hed : isED a n = false := by simp [isED, hk]
+  have := w.leaf_no_child hi' hed hn
+  simp [onAxis, this]
+
+theorem stepSet_child_dummy (w : WF m a) {n : Nat} (hv : isDummyDoc m n = true) (t : Test) :
+    stepSet m a .child t n = if matchTest m a .elem t (rootIdx m) then [rootIdx m] else [] := by
+  obtain ⟨rfl, rfl, h0, hs0, hl, h1, hs1⟩ := w.v_is_doc hv
+  have hce := child_eq w (n := 0) (by omega)
+  have hic : iterAxis .dummy a .child 0 = [1] := by
+    simp [iterAxis, iterChildren, isED, h0, isDummyDoc, rootIdx]
+  unfold stepSet
+  have : (allNodes a).filter (fun i => onAxis .dummy a .child 0 i && testOK .dummy a .child t i) =
+      ((allNodes a).filter (onAxis .dummy a .child 0)).filter (testOK .dummy a .child t) := by
+    rw [List.filter_filter]; apply List.filter_congr; intro i _; rw [Bool.and_comm]
+  rw [this, ← hce, hic]
+  have ht : testOK .dummy a .child t 1 = matchTest .dummy a .elem t 1 :=
+    (matchTest_eq_testOK w .child t 1).symm
+  cases hm : matchTest .dummy a .elem t 1 <;> simp [List.filter, ht, hm, rootIdx]
+
+/-- one step = the specified step, outside the exact triggers -/
+theorem evalStep_eq (w : WF m a) {n : Nat} (hn : n < a.length) (ax : Axis) (t : Test) (ab : Bool)
+    (hs : stepSafe m a ax t ab n = true) : evalStep m a ax t ab n = stepSet m a ax t n := by
+  unfold stepSafe at hs
+  simp only [Bool.and_eq_true, Bool.not_eq_true'] at hs
+  obtain ⟨⟨hb, hc⟩, hi⟩ := hs
+  by_cases hob : okF01b a ax n = true
+  · by_cases hoc : okF01c a ax n = true
+    · by_cases hoi : okF01i m ax ab n = true
+      · exact evalStep_eq_old w hn ax t ab hob hoc hoi
+      · -- explicit child at the dummy document, the root element fails the test
+        have hx : explicitChildAtDummy m ax ab n = true := by simpa [okF01i] using hoi
+        have hx' := hx
+        unfold explicitChildAtDummy at hx'
+        simp only [Bool.and_eq_true, Bool.not_eq_true', beq_iff_eq] at hx'
+        obtain ⟨⟨_, rfl⟩, hv⟩ := hx'
+        have hm : matchTest m a .elem t (rootIdx m) = false := by
+          simpa [trigF01i, hx] using hi
+        rw [stepSet_child_dummy w hv, hm]
+        simp [evalStep, hx]
+    · -- attribute axis from an attribute that fails the test
+      have hk : ax = .attribute ∧ kd a n = .attr := by
+        cases ax <;> simp [okF01c] at hoc ⊢
+        exact hoc
+      obtain ⟨rfl, hk⟩ := hk
+      have hm : matchTest m a .attr t n = false := by simpa [trigF01c, hk] using hc
+      rw [stepSet_attribute_attr w hn hk]
+      simp [evalStep, explicitChildAtDummy, iterAxis, iterAttributes, hk, principal, hm]
+  · -- following from an attribute / namespace node with nothing to select
+    have hk : ax = .following ∧ isAN a n = true := by
+      cases ax <;> simp [okF01b] at hob ⊢
+      exact hob
+    obtain ⟨rfl, han⟩ := hk
+    have hnone : ((List.range a.length).any fun i => decide (n < i) && !isAN a i && matchTest m a .elem t i) = false := by
+      simpa [trigF01b, han] using hb
+    rw [stepSet_following_AN w hn han]
+    have : (allNodes a).filter (fun i => decide (n < i) && !isAN a i && matchTest m a .elem t i) = [] := by
+      rw [List.filter_eq_nil_iff]
+      intro i hi h
+      have : ((List.range a.length).any fun i => decide (n < i) && !isAN a i && matchTest m a .elem t i) = true :=
+        List.any_eq_true.2 ⟨i, hi, h⟩
+      rw [hnone] at this; cases this
+    rw [this]
+    simp [evalStep, explicitChildAtDummy, iterAxis, iterFollowings, han]
+
+/-- **exactness of the triggers**: when one of them holds the model's step really differs from the
+specified step — `safe` excludes nothing but the three findings -/
+theorem stepSafe_exact (w : WF m a) {n : Nat} (hn : n < a.length) (ax : Axis) (t : Test) (ab : Bool)
+    (hs : stepSafe m a ax t ab n = false) : evalStep m a ax t ab n ≠ stepSet m a ax t n := by
+  unfold stepSafe at hs
+  simp only [Bool.and_eq_false_iff, Bool.not_eq_false'] at hs
+  rcases hs with (hb | hc) | hi
+  · -- F01b
+    unfold trigF01b at hb
+    simp only [Bool.and_eq_true, beq_iff_eq] at hb
+    obtain ⟨⟨rfl, han⟩, hany⟩ := hb
+    rw [stepSet_following_AN w hn han]
+    have hl : evalStep m a .following t ab n = [] := by
+      simp [evalStep, explicitChildAtDummy, iterAxis, iterFollowings, han]
+    rw [hl]
+    intro h
+    rw [List.any_eq_true] at hany
+    obtain ⟨i, hi, hp⟩ := hany
+    have : i ∈ (allNodes a).filter (fun i => decide (n < i) && !isAN a i && matchTest m a .elem t i) :=
+      List.mem_filter.2 ⟨hi, hp⟩
+    rw [← h] at this
+    simp at this
+  · -- F01c
+    unfold trigF01c at hc
+    simp only [Bool.and_eq_true, beq_iff_eq] at hc
+    obtain ⟨⟨rfl, hk⟩, hm⟩ := hc
+    rw [stepSet_attribute_attr w hn hk]
+    simp [evalStep, explicitChildAtDummy, iterAxis, iterAttributes, hk, principal, hm]
+  · -- F01i
+    unfold trigF01i at hi
+    simp only [Bool.and_eq_true] at hi
+    obtain ⟨hx, hm⟩ := hi
+    have hx' := hx
+    unfold explicitChildAtDummy at hx'
+    simp only [Bool.and_eq_true, Bool.not_eq_true', beq_iff_eq] at hx'
+    obtain ⟨⟨_, rfl⟩, hv⟩ := hx'
+    rw [stepSet_child_dummy w hv, hm]
+    simp [evalStep, hx]
 
 theorem iterParent_eq (w : WF m a) {n : Nat} (hn : n < a.length) :
     iterParent m a n = stepSet m a .parent .node n := by
